@@ -1,5 +1,6 @@
 import NmVerif.Lemmas.LinalgMatmul
 namespace NmVerif
+open NmVerif.MB
 open Linalg
 
 theorem replicate_succ_append (n : Nat) (x : Nat) : List.replicate (n + 1) x = List.replicate n x ++ [x] := by
